@@ -87,24 +87,56 @@ fn const_value_json<'tcx>(tcx: TyCtxt<'tcx>, val: ConstValue, ty: Ty<'tcx>) -> O
             Some(arr(&bytes.iter().map(|b| b.to_string()).collect::<Vec<_>>()))
         }
         ConstValue::Indirect { alloc_id, offset } => {
-            // arrays of u8 (alphabet tables and the like)
-            let elem_ok = match ty.kind() {
-                ty::Array(e, _) => matches!(e.kind(), ty::Uint(ty::UintTy::U8) | ty::Int(ty::IntTy::I8)),
-                _ => false,
-            };
-            if !elem_ok {
-                return None;
-            }
-            let len = match ty.kind() {
-                ty::Array(_, n) => n.try_to_target_usize(tcx)? as usize,
+            let (elem, len) = match ty.kind() {
+                ty::Array(e, n) => (*e, n.try_to_target_usize(tcx)? as usize),
                 _ => return None,
             };
+            if len > 4096 {
+                return None;
+            }
             let alloc = tcx.global_alloc(alloc_id).unwrap_memory();
             let start = offset.bytes() as usize;
-            let bytes = alloc
-                .inner()
-                .inspect_with_uninit_and_ptr_outside_interpreter(start..start + len);
-            Some(arr(&bytes.iter().map(|b| b.to_string()).collect::<Vec<_>>()))
+            // arrays of integers / chars (alphabet tables and the like)
+            let esize = match elem.kind() {
+                ty::Uint(ty::UintTy::U8) | ty::Int(ty::IntTy::I8) | ty::Bool => Some(1usize),
+                ty::Uint(ty::UintTy::U16) | ty::Int(ty::IntTy::I16) => Some(2),
+                ty::Uint(ty::UintTy::U32) | ty::Int(ty::IntTy::I32) | ty::Char => Some(4),
+                ty::Uint(ty::UintTy::U64) | ty::Int(ty::IntTy::I64) => Some(8),
+                _ => None,
+            };
+            if let Some(es) = esize {
+                let bytes = alloc
+                    .inner()
+                    .inspect_with_uninit_and_ptr_outside_interpreter(start..start + len * es);
+                let mut vals = Vec::with_capacity(len);
+                for i in 0..len {
+                    let mut v: u64 = 0;
+                    for j in (0..es).rev() {
+                        v = (v << 8) | bytes[i * es + j] as u64;
+                    }
+                    vals.push(v.to_string());
+                }
+                return Some(arr(&vals));
+            }
+            // arrays of &str / &[u8]: one wide pointer per element
+            let is_slice_ref = match elem.kind() {
+                ty::Ref(_, inner, _) => inner.is_str() || matches!(inner.kind(), ty::Slice(e) if matches!(e.kind(), ty::Uint(ty::UintTy::U8))),
+                _ => false,
+            };
+            if is_slice_ref {
+                let psz = tcx.data_layout.pointer_size().bytes();
+                let mut vals = Vec::with_capacity(len);
+                for i in 0..len {
+                    let cv = ConstValue::Indirect {
+                        alloc_id,
+                        offset: offset + rustc_abi::Size::from_bytes(i as u64 * 2 * psz),
+                    };
+                    let b = cv.try_get_slice_bytes_for_diagnostics(tcx)?;
+                    vals.push(arr(&b.iter().map(|x| x.to_string()).collect::<Vec<_>>()));
+                }
+                return Some(arr(&vals));
+            }
+            None
         }
     }
 }
